@@ -20,6 +20,7 @@ for ID in "$@"; do
   ( cd $M && CARGO_NET_OFFLINE=true cargo build --release --offline --bin $id 2>&1 | grep -E "^error" -A8 | head -30 )
   MC_OUT_DIR=$OUT /tmp/mut-target/release/$id --tier ${TIER:-quick} > $OUT/$ID.log 2>&1
   code=$?
+  echo -e "$(basename $(dirname $PATCH))/$(basename $PATCH)\t$ID\t$code\t$(grep 'signature:' $OUT/$ID.log | sed 's/.*signature: //' | sort -u | head -4 | tr '\n' ' ')" >> /verif/seeded/results.tsv
   echo "== $ID exit=$code  $(grep -c '^VIOLATION' $OUT/$ID.log) violation lines; signatures: $(grep 'signature:' $OUT/$ID.log | sort | uniq -c | head -5 | tr '\n' ';')"
   tail -1 $OUT/$ID.log
   [ $code -ne 0 ] && rc=1
